@@ -250,9 +250,11 @@ def run(ctx: Ctx) -> None:
         "(scanDelims with the T1 classification tables, tokenize, _postProcess) and tied through the inline differential runs; "
         "PROVED (Props/C02f.lean emini_wellformed): for every source, every subset of newline/escape/backticks with emphasis on, every "
         "maxNesting and every character classification, the inline stream after balance_pairs, the emphasis post-processing and "
-        "fragments_join is levelled from 0, balanced, and SyntaxTreeNode builds. NOT PROVED: that the open/close tokens of one pair "
-        "carry the same tag in stack order at the token level (it follows informally from pairs_laminar; strikethrough, links and "
-        "images are not modelled): covered by the oracle incl. the bounded-exhaustive delimiter sweep",
+        "fragments_join is levelled from 0, balanced, and SyntaxTreeNode builds; and (Props/C02g.lean emini_tags_nested) its opening and "
+        "closing tokens pair up by tag in stack order — every em_close closes the innermost open em_open, every strong_close the innermost "
+        "open strong_open — derived from pairs_laminar through the post-processing loop by a description of the stream as a laminar family of "
+        "tagged bracket pairs (nest_of_desc). NOT PROVED: the same with strikethrough's lone-marker swap (modelled and tied, not in the "
+        "theorem), links and images (not modelled): covered by the oracle incl. the bounded-exhaustive delimiter sweep",
         "balance and levels of the block-level stream follow from the segment contract K5 (engine theorem loop_segs); K5 is "
         "PROVED for code, fence, hr, heading, paragraph (Props/C02b.lean segOK_*), giving the unconditional mini_wellformed "
         "(levelled from 0, balanced, SyntaxTreeNode builds) for that sub-parser, whose model is tied by the `miniblock` "
